@@ -110,26 +110,28 @@ Theorem flatten_diverges_on_cycle_refuted :
 Proof. exact flatten_diverges_witness. Qed.
 Print Assumptions flatten_diverges_on_cycle_refuted.
 
-(* bbox_of_composite: plain recursion; depth never exceeds the number of glyphs *)
+(* bbox_of_composite, as repaired by c15-bbox-iterative (work list on the heap, no visited set) *)
 Theorem bbox_terminates_on_acyclic : forall (G : store) (v : nat), closed G -> acyclic G ->
-  forall depth, length G < depth -> bbox depth G v = Some tt.
+  forall fuel, walk_bound G < fuel -> bbox fuel G v = Some tt.
 Proof. exact bbox_terminates_on_acyclic. Qed.
 Print Assumptions bbox_terminates_on_acyclic.
 
-(* every recursion depth is exhausted on a -> b -> a: the stack overflow of DESIGN 6.1 *)
+(* on a -> b -> a the work list never empties.  (Unreachable since the entry check; before the
+   two repairs this was the stack overflow of DESIGN 6.1.) *)
 Theorem bbox_diverges_on_cycle_refuted :
-  exists (G : store) (v : nat), forall depth, bbox depth G v = None.
+  exists (G : store) (v : nat), forall fuel, bbox fuel G v = None.
 Proof. exact bbox_diverges_witness. Qed.
 Print Assumptions bbox_diverges_on_cycle_refuted.
 
-(* ... and on ACYCLIC graphs the recursion is as deep as the nesting: no fixed stack suffices
-   for all valid inputs (every other walk keeps its work list on the heap).  The model cannot
-   say when the real 2 MiB worker stack overflows; the harness shows it does for a chain of
-   1500 glyphs (violation key deep-component-nesting-stack-overflow). *)
-Theorem bbox_recursion_depth_unbounded_refuted : forall depth, exists (G : store) (v : nat),
-  closed G /\ acyclic G /\ bbox depth G v = None /\ exists depth', bbox depth' G v = Some tt.
+(* The defect repaired by c15-bbox-iterative, stated on the FORMER code (bbox_rec, plain
+   recursion): on ACYCLIC graphs the recursion was as deep as the nesting, so no fixed stack
+   sufficed for all valid inputs.  The model cannot say when a 2 MiB worker stack overflows;
+   the harness showed it did for a chain of 1500 glyphs (key
+   deep-component-nesting-stack-overflow) and keeps that chain, and one of 5000, in its corpus. *)
+Theorem recursive_bbox_depth_unbounded_refuted : forall depth, exists (G : store) (v : nat),
+  closed G /\ acyclic G /\ bbox_rec depth G v = None /\ exists depth', bbox_rec depth' G v = Some tt.
 Proof. exact bbox_depth_unbounded. Qed.
-Print Assumptions bbox_recursion_depth_unbounded_refuted.
+Print Assumptions recursive_bbox_depth_unbounded_refuted.
 
 (* ======================= the repaired entry check ==================================== *)
 
@@ -172,9 +174,11 @@ Theorem repair_transparent_without_cycle : forall (fl : flags) (G : store), ~ ha
 Proof. exact no_cycle_exec_total. Qed.
 Print Assumptions repair_transparent_without_cycle.
 
-(* C15 is FALSE for the unrepaired compiler: a -> b -> a overflows the stack (default flags),
+(* C15 is FALSE for the compiler without the entry check: a -> b -> a never leaves bbox_of_composite
+   (default flags; a stack overflow before c15-bbox-iterative),
    hangs in flatten_glyph (--flatten-components), and hangs in the re-queue loop when a
-   has contours.  Replayed on the real CLI by the harness (fixed corpus). *)
+   has contours.  All three were replayed on the real CLI while it lacked the check (fixed
+   corpus of the harness); with the check they are rejected, see the last Example. *)
 Theorem unfixed_compile_diverges_refuted :
   (forall fuel, exec false default_flags fuel two_cycle = MDiverge) /\
   (forall fuel, exec false (mkFlags true true false) fuel two_cycle = MDiverge) /\
